@@ -778,6 +778,22 @@ def scenario(name: str, kind: str, tmp: str) -> tuple[bool, str]:
             second = [x[1] for x in b.new_launches()]
         return second != ["2"], (f"events `A`(n=1), loop, `A`(n=2), loop; trigger 1 on `A` alone, trigger 2 on `A` AND `B` (never emitted): "
                                  f"first iteration launches n={first}, second iteration launches n={second} (the first event is still pending for trigger 2 and rejoins trigger 1's context)")
+    if name == "and-occurrences-redelivered-in-other-order":
+        # the SAME two occurrences of an AND trigger are delivered a second time (a duplicate report), in the other order, a few
+        # seconds after they were consumed: it is the same run - claimed already - not a new one
+        b = _single(kind, tmp, "j", [CondSpec("event", code="A"), CondSpec("event", code="B")], [TrigSpec("target", [0, 1], "and", [])])
+        o = Occurrences(b)
+        with VirtualClock(T0) as clk:
+            o.event("A", "1"); o.event("B", "1")
+            vcs = list(b.app.trigger.get_valid_conditions().values())
+            b.app.trigger.trigger_loop_iteration()
+            first = len(b.new_launches())
+            clk.advance(5 * US_SEC)
+            b.app.trigger.record_valid_conditions(list(reversed(vcs)))
+            b.app.trigger.trigger_loop_iteration()
+            second = len(b.new_launches())
+        return (first, second) != (1, 0), (f"AND trigger on events `A` and `B`: one occurrence of each, loop -> {first} launch(es); the same two occurrences reported again "
+                                           f"in the other order 5 s later, loop -> {second} more launch(es)")
     if name == "same-exception-type-two-invocations":
         b = _single(kind, tmp, "a", [CondSpec("exception", types=["ValueError"])], [TrigSpec("target", [0], "or", ["c:exception"])])
         o = Occurrences(b)
@@ -825,6 +841,7 @@ SCENARIOS = {
     "two-pending-events-or-arguments": "provider-takes-first-pending-context",
     "shared-occurrence-relaunched-after-expiry": "relaunch-after-claim-expiry:occurrence-kept-for-unready-trigger",
     "kept-occurrence-rejoins-context": "launched-occurrence-rejoins-context:occurrence-kept-for-unready-trigger",
+    "and-occurrences-redelivered-in-other-order": "and-run-identity-depends-on-delivery-order",
     "same-exception-type-two-invocations": "exception-occurrence-identity-ignores-invocation",
     "cron-first-poll-off-schedule": "cron-first-poll-fires-off-schedule",
     "cron-short-window": "cron-window-shorter-than-a-minute-ignored",
